@@ -236,6 +236,9 @@ fn run_history(out: &mut impl Write, ctx: &mut Ctx, fakes: &[(usize, u32)], ops:
     for (i, &(a, k)) in ctx.targets.iter().enumerate() {
         line.push_str(&format!(" T{}={:x}:{:x}:{}", i, a, k, hexb(&unsafe { arena::read(a, SLOT) })));
     }
+    for l in &ctx.arenas {
+        line.push_str(&format!(" AR={:x}:{:x}", l.base, l.pages * arena::PAGE));
+    }
     let base_maps = rwx_anon_maps_outside(&ctx.arenas);
     let text0 = text_hash();
     let mut inj: Option<InjectorPP> = None;
@@ -476,7 +479,15 @@ pub fn run(a: &Args, out: &mut impl Write) {
             let fakes: Vec<(usize, u32)> = vec![near.funcs[0], near.funcs[7], far.funcs[1], far.funcs[200], near.funcs[255]];
             let ops = gen_history(&mut r, targets.len(), fakes.len(), thorough);
             let n = targets.len();
-            let mut ctx = Ctx { targets, named: vec![false; n], arenas: vec![lay] };
+            let mut arenas = vec![lay];
+            // "library" code exactly one search range below the page-aligned target: the first
+            // mmap hint of an install on that target falls on it (occupied -> kernel relocates)
+            if base >= 0x800_0000 + 0x10000 {
+                if let Some(lib) = build_arena(base - 0x800_0000, 2, &[], 0x6600_0000) {
+                    arenas.push(lib);
+                }
+            }
+            let mut ctx = Ctx { targets, named: vec![false; n], arenas };
             run_history(w, &mut ctx, &fakes, &ops);
         });
         if sig != 0 || code != 0 {
